@@ -51,6 +51,8 @@ def check(chk, fx):
     from . import c19
     c19.hlp_t(chk, ("clang++",))
     c19.hlp_a(chk, fx)
+    from .. import deporder, goldenreg as _gr
+    deporder.group(chk, fx, "DEPORD", "dependence order of statements (driver: shift / reduce / stacks)", _gr.DEP_GROUPS["DRV"])
     from .. import ownrules
     ownrules.fcopy(chk, fx, 100)      # "each rule's functor is called": the stored object, not a copy of it
     lr.all_table_rules(chk, fx)
